@@ -186,21 +186,6 @@ theorem walk_of_dfs (f : Flow) (o : Oracle) (d : Dir) :
       walk_of_dfs f o d F _ t e.cond (dfs_edge h hn he ht) fuel' (by omega))
     simpa [bnd] using this
 
-/-- from a node whose own DFS (`dfsFrom`) succeeded -/
-theorem walk_of_dfsFrom (f : Flow) (o : Oracle) (d : Dir) (k : String)
-    (h : ∀ n, (f.dir d).find k = some n → dfsFrom (f.dir d) n = true)
-    (fuel : Nat) (hf : dfsFuel (f.dir d) + 1 ≤ fuel) :
-    WOk (dirBound (f.dir d)) (walk f o d fuel k) := by
-  obtain ⟨fuel', rfl⟩ : ∃ fuel', fuel = fuel' + 1 := ⟨fuel - 1, by omega⟩
-  have := walk_succ_ok f o d fuel' k (bnd (maxDeg (f.dir d)) (dfsFuel (f.dir d))) (fun n hn e he t ht => by
-    have hd := h n hn
-    unfold dfsFrom at hd
-    rw [List.all_eq_true] at hd
-    have := hd e he
-    simp only [ht] at this
-    exact walk_of_dfs f o d _ [] t e.cond this fuel' (by omega))
-  simpa [dirBound, bnd] using this
-
 /-- more fuel than needed changes nothing about the bound -/
 theorem WOk.mono {a b : Nat} {r : WalkRes} (h : WOk a r) (hab : a ≤ b) : WOk b r :=
   ⟨h.1, Nat.le_trans h.2 hab⟩
